@@ -29,7 +29,7 @@ assert_in_tree(clienting)
 
 PID = "C19"
 RULE = ("cases: 1-6 queued requests (GET/POST/PUT, unique paths, bodies) interleaved with service cycles x per-arrival server "
-        "behaviour (200 with Content-Length or chunked, delay 0-4 cycles, fragment size, close after answering; redirect 301/302/"
+        "behaviour (200, or 201 with a Location header that must not be followed, with Content-Length or chunked, delay 0-4 cycles, fragment size, close after answering; redirect 301/302/"
         "303/307 relative / absolute / to the other authority, chains up to 3 hops; https->http redirect on a TLS flavoured "
         "client); non-trivial = >= 3 queued requests with a delayed answer or a redirect among them; distinct = canonical hash")
 ASSUMPTIONS = [
@@ -153,14 +153,21 @@ class Srv:
             body = ("answer-%d:%s:%s" % (arr["idx"], arr["method"], arr["target"])).encode() + arr["body"][:20]
             arr["answer"] = body
             conn = b"Connection: close\r\n" if beh.get("close") else b""
+            status = b"200 OK"
+            arr["status"] = 200
+            if beh.get("loc"):
+                # a success answer that carries a Location header (201 Created): it is an answer, not a redirect
+                status = b"201 Created"
+                arr["status"] = 201
+                conn += b"Location: /created/%d\r\n" % arr["idx"]
             if beh.get("chunked"):
                 half = len(body) // 2
-                out = b"HTTP/1.1 200 OK\r\nTransfer-Encoding: chunked\r\n" + conn + b"\r\n"
+                out = b"HTTP/1.1 " + status + b"\r\nTransfer-Encoding: chunked\r\n" + conn + b"\r\n"
                 for piece in (body[:half], body[half:]):
                     if piece:
                         out += b"%x\r\n" % len(piece) + piece + b"\r\n"
                 return out + b"0\r\n\r\n"
-            return b"HTTP/1.1 200 OK\r\nContent-Length: %d\r\n" % len(body) + conn + b"\r\n" + body
+            return b"HTTP/1.1 " + status + b"\r\nContent-Length: %d\r\n" % len(body) + conn + b"\r\n" + body
         # redirects
         hop = "/r%d" % arr["idx"]
         if k == "redir-rel":
@@ -222,7 +229,7 @@ def run_case(case):
                     r.fail("C19/entry-without-final-answer", "entry %d (status %r) appeared before the final target answered; chain %r" % (
                         k, e.get("status"), [(a["method"], a["target"], a["beh"]["kind"]) for a in chain]))
                     return
-                if e.get("errored") or e.get("status") != 200 or bytes(e.get("body") or b"") != final["answer"]:
+                if e.get("errored") or e.get("status") != final.get("status", 200) or bytes(e.get("body") or b"") != final["answer"]:
                     r.fail("C19/wrong-answer-for-entry", "entry %d: status %r errored %r body %r; the final target answered %r" % (
                         k, e.get("status"), e.get("errored"), bytes(e.get("body") or b"")[:60], final["answer"][:60]))
                     return
@@ -323,7 +330,8 @@ def _strategy():
     svc = st.just(["svc"])
     ok = st.fixed_dictionaries({"kind": st.just("ok"), "delay": st.sampled_from([0, 0, 1, 2, 4]),
                                 "frag": st.sampled_from([4096, 4096, 7, 1, 30]), "chunked": st.booleans(),
-                                "close": st.sampled_from([False, False, False, True])})
+                                "close": st.sampled_from([False, False, False, True]),
+                                "loc": st.sampled_from([False, False, True])})
     redir = st.fixed_dictionaries({"kind": st.sampled_from(["redir-rel", "redir-abs", "redir-other"]),
                                    "code": st.sampled_from([301, 302, 303, 307]), "delay": st.sampled_from([0, 1, 3]),
                                    "frag": st.sampled_from([4096, 9])})
